@@ -462,6 +462,29 @@ theorem not_fuse_uniform :
   obtain ⟨v, hv⟩ := h 10 1000 witRecUnion _ _ witnesses_well_typed.2.1 hf ha _ (List.mem_cons_self)
   simp at hv
 
+/-- `1`, `error("x")` (the error value as an opaque leaf) -/
+def witErr : List Input :=
+  [ { ty := tInt, val := .prim 9 [2], nbytes := 1 },
+    { ty := .error tStr, val := .prim idError [120], nbytes := 1 } ]
+
+/-- **not_fuse_uniform_error_value.**  A top-level error value is returned by the shaper as it
+    is (`val.IsError()`), so it keeps its own type while `fuse()` reports the union. -/
+theorem not_fuse_uniform_error_value :
+    ¬ ∀ (fuel memMax : Nat) (xs : List Input) (outs : List Out) (T : Ty), WellTyped xs →
+        fuse fuel memMax xs = some outs → aggType fuel (xs.map (·.ty)) = some (some T) →
+        ∀ o ∈ outs, ∃ v, o = .val T v := by
+  intro h
+  have hw : WellTyped witErr := by
+    intro x hx
+    simp only [witErr, List.mem_cons, List.not_mem_nil, or_false] at hx
+    rcases hx with rfl | rfl <;> decide
+  have hf : fuse 10 1000 witErr = some
+      [ .val (.union (.cons tInt (.cons (.error tStr) .nil))) (.union 0 (.prim 9 [2])),
+        .val (.error tStr) (.prim idError [120]) ] := by decide
+  have ha : aggType 10 (witErr.map (·.ty)) = some (some (.union (.cons tInt (.cons (.error tStr) .nil)))) := by decide
+  obtain ⟨v, hv⟩ := h 10 1000 witErr _ _ hw hf ha _ (List.mem_cons_of_mem _ List.mem_cons_self)
+  simp at hv
+
 mutual
 /-- no union in the type has two identical members -/
 def noDupUnion : Ty → Bool
